@@ -285,7 +285,7 @@ pub fn run(cfg: &Cfg, rep: &mut Report) {
         t.push(super::thr::TOp::Next(0));
       }
     }
-  }, &|o, _| super::thr::behavior_oracle(o));
+  }, &|o, _| super::thr::first_probe_receives_all(o).or_else(|| super::thr::behavior_oracle(o)));
   super::thr::campaign(cfg, rep, "thr", n, 0xC12F, &mut |r: &mut Rng| {
     let mut s = super::thr::random_scen(r, 1);
     // two producers (+ one late subscriber), no terminal: the statement's thread scenario
@@ -296,5 +296,16 @@ pub fn run(cfg: &Cfg, rep: &mut Report) {
       }
     }
     s
-  }, &|o, _| super::thr::behavior_oracle(o));
+  }, &|o, _| super::thr::first_probe_receives_all(o).or_else(|| super::thr::behavior_oracle(o)));
+  // the same producers free-running on OS threads with seeded jitter at the lock points
+  super::thr::free_campaign(cfg, rep, cfg.n(2_000, 200_000), 0xC12E, &mut |r: &mut Rng| {
+    let mut s = super::thr::random_scen(r, 1);
+    for t in s.threads.iter_mut() {
+      t.retain(|op| !matches!(op, super::thr::TOp::Complete(_) | super::thr::TOp::Error(_) | super::thr::TOp::Unsub(_) | super::thr::TOp::UnsubSubject));
+      if t.is_empty() {
+        t.push(super::thr::TOp::Next(0));
+      }
+    }
+    s
+  }, &|o, _| super::thr::first_probe_receives_all(o).or_else(|| super::thr::behavior_oracle(o)));
 }
